@@ -4,13 +4,14 @@ CONSTANTS
   Ns = {0,1,2,3}
   SmpMode = "all"
   Vals = {0,3}
-  Wts = {0,1,2}
+  Wts = {0,1}
   WDen = 1
   Gens = {1,2,3}
   SampleSpace <- MCSampleSpace
   Required = {"temp","active","inactive","native","binned"}
   Optional = {"cond"}
   LocalQs = {}
+  Ordered = FALSE
   Export = FALSE
 INVARIANT ReportsEveryStatistic
 INVARIANT EveryStatisticIsCombined
